@@ -227,6 +227,17 @@ def tables_rule(chk, prog):
         lit.get("true") == ("call", "humphrey_json::value::Value::Bool", [("lit", True)]) and \
         lit.get("false") == ("call", "humphrey_json::value::Value::Bool", [("lit", False)]) and set(lit) == {"null", "true", "false"}
     chk.ob("R1.literals", P + "parse_literal", "literal table == {null, true, false}", ok, f"{lit}")
+    # JSON is case-sensitive (`True`, `NULL` are not JSON texts): nothing in the parser folds the case of what it has scanned
+    nfold = 0
+    for pth_, pb2 in sorted(prog.bodies.items()):
+        if not pth_.startswith("humphrey_json::parser::"):
+            continue
+        for blk_, t_ in pb2.calls():
+            nfold += 1
+            if core.call_matches(t_, r"::(make_ascii_lowercase|make_ascii_uppercase|to_lowercase|to_uppercase|to_ascii_lowercase|to_ascii_uppercase|eq_ignore_ascii_case)$"):
+                chk.ob("R1.literals", pth_, "the parser compares tokens case-sensitively", False,
+                       f"{core.short(t_['callee'])} folds the case of scanned text: `True` / `NULL` / `FALSE` are accepted although they are not JSON", where=pb2.where(blk_))
+    chk.floor("calls examined in the JSON parser", nfold, 20)
 
 
 def token_extent(chk, prog):
